@@ -58,6 +58,10 @@ type c10frame struct {
 	memo map[c10cell]c10stores
 
 	extLoop map[*ssa.BasicBlock]bool // headers of loops recognised by their induction variable only (c10frame.loops)
+
+	// read-only accessors of the state object (c10frame.findAccessors)
+	accCalls  map[*ssa.Call]bool      // their calls in the outer function, the page worker and the per-signature worker
+	accParams map[*ssa.Parameter]bool // their parameters that receive the address of the state object
 }
 
 func c10IsLoad(v ssa.Value) (*ssa.UnOp, bool) {
@@ -77,6 +81,9 @@ func (x *c10frame) isObj(v ssa.Value) bool {
 		if v == ssa.Value(p) {
 			return true
 		}
+	}
+	if p, ok := v.(*ssa.Parameter); ok && x.accParams[p] {
+		return true
 	}
 	if fv, ok := v.(*ssa.FreeVar); ok && x.bind[fv] == ssa.Value(x.obj) {
 		return true
@@ -546,8 +553,9 @@ func c10EdgeSetKey(m map[edgeKey]bool) string {
 // c10DeepCuts returns the alternative cut sets of fi for the selection (one per combination of remaining helper exits)
 // and the number of selected edges found in fi and in the helpers it calls. subst rewrites a label of fi into the frame
 // of the function the selection was written for.
-func c10DeepCuts(w *World, fi *FnInfo, sel EdgeSel, subst func(string) string, depth int, busy map[*ssa.Function]bool) ([]map[edgeKey]bool, int) {
-	own := fi.edgesMatching(func(l string, iff *ssa.If, truth bool) bool { return sel(subst(l), iff, truth) })
+func c10DeepCuts(w *World, fi *FnInfo, sel c10sel, subst func(string) string, depth int, busy map[*ssa.Function]bool) ([]map[edgeKey]bool, int) {
+	// (a branch on a computed disjunction is selected when each of its elementary facts is: c10Alts)
+	own := fi.edgesMatching(func(_ string, iff *ssa.If, truth bool) bool { return c10AllAlts(sel, subst, iff.Cond, truth) })
 	n := len(own)
 	alts := []map[edgeKey]bool{own}
 	if depth >= 2 {
@@ -642,7 +650,7 @@ func c10DeepCuts(w *World, fi *FnInfo, sel EdgeSel, subst func(string) string, d
 func c10Ident(l string) string { return l }
 
 // c10DeepBlocked: no target block is reachable from the entry of fi once the selected edges (own and in helpers) are removed.
-func c10DeepBlocked(w *World, fi *FnInfo, sel EdgeSel, targets map[int]bool) (bool, int) {
+func c10DeepBlocked(w *World, fi *FnInfo, sel c10sel, targets map[int]bool) (bool, int) {
 	alts, n := c10DeepCuts(w, fi, sel, c10Ident, 0, map[*ssa.Function]bool{})
 	for _, a := range alts {
 		if fi.reachHit(entryState(), a, targets) {
@@ -653,7 +661,7 @@ func c10DeepBlocked(w *World, fi *FnInfo, sel EdgeSel, targets map[int]bool) (bo
 }
 
 // c10DeepExitsBlocked: none of the exits can report success once the selected edges (own and in helpers) are removed.
-func c10DeepExitsBlocked(w *World, fi *FnInfo, exits []*ExitSum, sel EdgeSel) (bool, int, []string) {
+func c10DeepExitsBlocked(w *World, fi *FnInfo, exits []*ExitSum, sel c10sel) (bool, int, []string) {
 	alts, n := c10DeepCuts(w, fi, sel, c10Ident, 0, map[*ssa.Function]bool{})
 	for _, a := range alts {
 		r := fi.reach(entryState(), a)
@@ -1950,4 +1958,322 @@ func (b *c10bud) headerBoundKind() int {
 		return c10kOther
 	}
 	return b.intKind(n, &c10env{fn: b.x.CB}, nil, map[ssa.Value]bool{})
+}
+
+// ---------- disjunctive conditions computed into a value ---------------------------------
+//
+// A disjunctive gate ("the exit is reachable only if A or B held") is written as two branches (`if a { … } else if b {
+// … }`, `if !a && !b { return err }`), or as one branch on a computed disjunction: a `switch { case a || b: … }`, or
+// `ok := a || b; if ok { … }`. In SSA the latter is one If on a phi whose constant edges stand for the branch that
+// selected them and whose value edges for the value itself. c10Alts reads such a condition back into the elementary
+// branch facts one of which holds when the edge is taken; a cut-set rule may remove the edge when *every* one of them is
+// an accepted fact. Soundness: the edge is taken only when the phi evaluates to `truth`; the phi got that value through
+// one of its incoming edges — a constant edge equal to `truth` was entered by the branch outcome listed for it, a value
+// edge carries a value that evaluated to `truth` — so one of the listed facts held; all of them being accepted facts,
+// an accepted fact held on the edge, which is all a cut set stands for. (Edges of the phi that carry the other constant
+// cannot produce `truth` and are left out; the same reading as the engine's OR(..) labels, on SSA values so that rules
+// written over the compared values see the elementary comparisons.)
+
+type c10alt struct {
+	cond  ssa.Value
+	truth bool
+}
+
+// c10sel is a selection of elementary branch facts: the canonical label of the fact, the condition and its outcome.
+type c10sel func(l string, cond ssa.Value, truth bool) bool
+
+func c10Alts(cond ssa.Value, truth bool, depth int, busy map[*ssa.Phi]bool) ([]c10alt, bool) {
+	for {
+		u, ok := cond.(*ssa.UnOp)
+		if !ok || u.Op != token.NOT {
+			break
+		}
+		cond, truth = u.X, !truth
+	}
+	p, isPhi := cond.(*ssa.Phi)
+	if !isPhi {
+		return []c10alt{{cond, truth}}, true
+	}
+	if bt, ok := p.Type().Underlying().(*types.Basic); !ok || bt.Kind() != types.Bool {
+		return nil, false
+	}
+	if depth > 3 || busy[p] || len(p.Edges) != len(p.Block().Preds) {
+		return nil, false
+	}
+	busy[p] = true
+	defer delete(busy, p)
+	var out []c10alt
+	for i, e := range p.Edges {
+		if bv, isK := c10BoolConst(e); isK {
+			if bv != truth {
+				continue
+			}
+			pred := p.Block().Preds[i]
+			iff, ok := blockTerm(pred).(*ssa.If)
+			if !ok || len(pred.Succs) != 2 || pred.Succs[0] == pred.Succs[1] {
+				return nil, false
+			}
+			as, ok := c10Alts(iff.Cond, pred.Succs[0] == p.Block(), depth+1, busy)
+			if !ok {
+				return nil, false
+			}
+			out = append(out, as...)
+			continue
+		}
+		as, ok := c10Alts(e, truth, depth+1, busy)
+		if !ok {
+			return nil, false
+		}
+		out = append(out, as...)
+	}
+	return out, true
+}
+
+// c10AllAlts: every elementary fact of the edge (cond == truth) is selected; subst rewrites the label of a fact into the
+// frame the selection was written for.
+func c10AllAlts(sel c10sel, subst func(string) string, cond ssa.Value, truth bool) bool {
+	alts, ok := c10Alts(cond, truth, 0, map[*ssa.Phi]bool{})
+	if !ok || len(alts) == 0 {
+		return false
+	}
+	for _, a := range alts {
+		l := condLabel(a.cond, a.truth)
+		hit := sel(subst(l), a.cond, a.truth)
+		if !hit {
+			if tw, has := labelTwin(l); has {
+				hit = sel(subst(tw), a.cond, a.truth)
+			}
+		}
+		if !hit {
+			return false
+		}
+	}
+	return true
+}
+
+// c10Edges turns a selection of elementary facts into a selection of branch edges.
+func c10Edges(sel c10sel) EdgeSel {
+	return func(_ string, iff *ssa.If, truth bool) bool { return c10AllAlts(sel, c10Ident, iff.Cond, truth) }
+}
+
+// c10Labels: a selection that looks at the label only.
+func c10Labels(sel EdgeSel) c10sel {
+	return func(l string, _ ssa.Value, truth bool) bool { return sel(l, nil, truth) }
+}
+
+// ---------- read-only accessors of the state object -----------------------------------
+//
+// With the per-verification state in a struct, a test the outer function (or the page worker) makes on it may be
+// wrapped in a small method: `func (s *state) succeeded() bool { return len(s.outcomes) > 0 }`. Such a function is
+// accepted as a user of the object when the parameter that receives the object is used for nothing but loading fields
+// as a whole (every use a FieldAddr, every use of that a load): it stores nothing through the object and keeps no way to
+// reach it, so "all stores to a field are the ones found in the outer function, the page worker and the per-signature
+// worker" stays true, which is all the object discipline is there for. Inside the accessor the parameter *is* the
+// object for the calls recorded here (its argument there is the object), so a load of one of its fields is a load of
+// that state cell (c10frame.isObj).
+//
+// A function called with the object at different parameter positions from different places is not accepted (its
+// parameters would not each stand for the object at every recorded call).
+
+func c10ReadOnlyParam(p *ssa.Parameter) bool {
+	refs := p.Referrers()
+	if refs == nil {
+		return true
+	}
+	for _, r := range *refs {
+		switch u := r.(type) {
+		case *ssa.DebugRef:
+		case *ssa.FieldAddr:
+			if u.X != ssa.Value(p) {
+				return false
+			}
+			for _, rr := range *u.Referrers() {
+				switch l := rr.(type) {
+				case *ssa.DebugRef:
+				case *ssa.UnOp:
+					if l.Op != token.MUL {
+						return false
+					}
+				default:
+					return false
+				}
+			}
+		default:
+			return false
+		}
+	}
+	return true
+}
+
+func (x *c10frame) findAccessors() {
+	x.accCalls, x.accParams = map[*ssa.Call]bool{}, map[*ssa.Parameter]bool{}
+	if x.obj == nil {
+		return
+	}
+	positions := map[*ssa.Function]string{}
+	rejected := map[*ssa.Function]bool{}
+	var calls []*ssa.Call
+	done := map[*ssa.Function]bool{}
+	for _, fn := range []*ssa.Function{x.W, x.CB, x.H} {
+		if fn == nil || done[fn] {
+			continue
+		}
+		done[fn] = true
+		for _, ci := range allCalls(fn) {
+			call, ok := ci.(*ssa.Call)
+			if !ok || call == x.fc || call == x.hc {
+				continue
+			}
+			g := staticCallee(call)
+			if g == nil || g.Blocks == nil || g.Parent() != nil || len(g.FreeVars) != 0 || !x.w.IsProductFn(g) || len(call.Call.Args) != len(g.Params) {
+				continue
+			}
+			if g == x.W || g == x.A || g == x.CB || (x.H != nil && g == x.H) {
+				continue
+			}
+			pos, okAll, any := "", true, false
+			for i, a := range call.Call.Args {
+				if !x.isObj(a) {
+					pos += "-"
+					continue
+				}
+				any = true
+				pos += "o"
+				if !c10ReadOnlyParam(g.Params[i]) {
+					okAll = false
+				}
+			}
+			if !any {
+				continue
+			}
+			if prev, seen := positions[g]; !okAll || (seen && prev != pos) {
+				rejected[g] = true
+				continue
+			}
+			positions[g] = pos
+			calls = append(calls, call)
+		}
+	}
+	for _, call := range calls {
+		g := staticCallee(call)
+		if rejected[g] {
+			continue
+		}
+		x.accCalls[call] = true
+		for i, ch := range positions[g] {
+			if ch == 'o' {
+				x.accParams[g.Params[i]] = true
+			}
+		}
+	}
+}
+
+// viaAccessor lifts a selection of elementary facts over the boolean result of a read-only accessor of the state
+// object: the edge (call == truth) is selected when every return of the accessor that can yield `truth` returns a value
+// whose evaluating to `truth` is a selected fact (each operand of a computed disjunction: c10Alts); a return of the
+// constant `truth` says nothing and refuses, a return of the other constant cannot take the edge.
+// Soundness: the edge is taken only when the call returned `truth`; the call returned through one of the accessor's
+// returns with a value that evaluated to `truth`, so the selected fact held when the accessor evaluated it — on the
+// cells of the state object, since its parameter is the object at this call. The facts the rules select this way are
+// monotone over one verification (the counter only counts, the success indicator is only ever set, the outer function
+// stores only the initial values), so a fact that held when it was evaluated holds for "some signature was processed /
+// verified" whenever it was evaluated.
+func (x *c10frame) viaAccessor(sel c10sel) c10sel {
+	return func(l string, cond ssa.Value, truth bool) bool {
+		if sel(l, cond, truth) {
+			return true
+		}
+		_, ways, ok := x.accessorWays(cond, truth)
+		if !ok {
+			return false
+		}
+		for _, w := range ways {
+			if !w.holds(func(a c10alt) bool {
+				al := condLabel(a.cond, a.truth)
+				if sel(al, a.cond, a.truth) {
+					return true
+				}
+				tw, has := labelTwin(al)
+				return has && sel(tw, a.cond, a.truth)
+			}) {
+				return false
+			}
+		}
+		return true
+	}
+}
+
+// c10accWay: one return of an accessor that can give the answer asked for, as groups of elementary facts: for every
+// group, the answer through this return implies that one fact of the group held; so a property P follows when some group
+// consists of facts that each imply P. The groups: the facts of the returned value having that answer (c10Alts; none for a constant), and, for
+// every branch edge all paths from the accessor's entry to this return take, the facts of that edge.
+type c10accWay struct {
+	groups [][]c10alt
+}
+
+func (w c10accWay) holds(implies func(c10alt) bool) bool {
+	for _, g := range w.groups {
+		all := len(g) > 0
+		for _, a := range g {
+			if !implies(a) {
+				all = false
+				break
+			}
+		}
+		if all {
+			return true
+		}
+	}
+	return false
+}
+
+// accessorWays: cond is the boolean result of a call of a read-only accessor of the state object (possibly negated):
+// that call and, for every return that can give the answer `truth` (a return of the other constant cannot), what the
+// answer through it implies (c10accWay; the facts are evaluated inside the accessor, while the call runs). ok=false when
+// cond is no such call or when no return can give the answer.
+func (x *c10frame) accessorWays(cond ssa.Value, truth bool) (*ssa.Call, []c10accWay, bool) {
+	for {
+		u, ok := cond.(*ssa.UnOp)
+		if !ok || u.Op != token.NOT {
+			break
+		}
+		cond, truth = u.X, !truth
+	}
+	call, ok := cond.(*ssa.Call)
+	if !ok || !x.accCalls[call] {
+		return nil, nil, false
+	}
+	g := staticCallee(call)
+	if g == nil || g.Signature.Results().Len() != 1 {
+		return nil, nil, false
+	}
+	var out []c10accWay
+	gi := x.w.Info(g)
+	for _, b := range g.Blocks {
+		ret, ok := blockTerm(b).(*ssa.Return)
+		if !ok {
+			continue
+		}
+		if len(ret.Results) != 1 {
+			return nil, nil, false
+		}
+		v := ret.Results[0]
+		var way c10accWay
+		if bv, isK := c10BoolConst(v); isK {
+			if bv != truth {
+				continue
+			}
+		} else if as, ok := c10Alts(v, truth, 0, map[*ssa.Phi]bool{}); ok && len(as) > 0 {
+			way.groups = append(way.groups, as)
+		}
+		if b.Index != 0 {
+			for _, e := range c10MustPassEdges(gi, g.Blocks[0], map[int]bool{b.Index: true}) {
+				if as, ok := c10Alts(e.iff.Cond, e.truth, 0, map[*ssa.Phi]bool{}); ok && len(as) > 0 {
+					way.groups = append(way.groups, as)
+				}
+			}
+		}
+		out = append(out, way)
+	}
+	return call, out, len(out) > 0
 }
